@@ -83,9 +83,12 @@ var runtimes = map[string][]byte{
 	// pays half the call value to the address in calldata word 0, then runs CREATE2 with its whole balance as value and a
 	// reverting constructor: called with its own child address, a value-carrying creation over a just-funded address fails
 	"factoryrv": hist.RtFactoryRv,
+	// calls the address in calldata word 0 twice with no value (aimed at a self-destructing contract: the second call finds
+	// an account that already destroyed itself in this transaction)
+	"double": ethcmn.FromHex("0x60006000600060006000600035" + "5af150" + "60006000600060006000600035" + "5af150" + "00"),
 }
 
-var runtimeNames = []string{"store", "revert", "loop", "kill", "log", "factory", "nest", "factoryrv"}
+var runtimeNames = []string{"store", "revert", "loop", "kill", "log", "factory", "nest", "factoryrv", "double"}
 
 func initCode(rt []byte) []byte {
 	n := byte(len(rt))
@@ -450,7 +453,7 @@ func (r *runner) deliver(h int64, i int, raw []byte, kind, tag string) (*violati
 			}
 			wantS := new(big.Int).Neg(new(big.Int).Add(fee, moved))
 			wantR := new(big.Int).Set(moved)
-			known := rtype != "unknown" && rtype != "factory" && rtype != "nest" && rtype != "factoryrv" // (a factory passes the value on to its child: judged by conservation)
+			known := rtype != "unknown" && rtype != "factory" && rtype != "nest" && rtype != "factoryrv" && rtype != "double" // (a factory passes the value on to its child: judged by conservation)
 			if rtype == "nest" && prePayee != nil && dS.Cmp(wantS) != 0 && !bytes.Equal(o.from, payee) {
 				return &violation{"sender-debit", cls, fmt.Sprintf("%s: sender balance changed by %s, want %s (nest call, value %s, status %s %s)", where, dS, wantS, o.value, status, errTxt)}, d
 			}
@@ -721,6 +724,21 @@ func (g *gen) olvm(e *sim.EthUser) (txgen.Tx, string) {
 		if g.ctrType[c] == "factory" {
 			a.Data = ethcmn.LeftPadBytes(hist.FactoryChild(c).Bytes(), 32)
 			a.Fee.Gas = []int64{300000, 300000, 100000, 60000}[g.u.N(4, "fgas")]
+		}
+		if g.ctrType[c] == "double" {
+			// aim it at a self-destructing contract when there is one (any other contract otherwise)
+			target := g.ctrs[g.u.N(len(g.ctrs), "dbl-any")]
+			var kills []ethcmn.Address
+			for _, k := range g.ctrs {
+				if g.ctrType[k] == "kill" {
+					kills = append(kills, k)
+				}
+			}
+			if len(kills) > 0 && g.u.N(5, "dbl-kill") != 0 {
+				target = kills[g.u.N(len(kills), "dbl-which")]
+			}
+			a.Data = ethcmn.LeftPadBytes(target.Bytes(), 32)
+			a.Fee.Gas = []int64{300000, 300000, 100000}[g.u.N(3, "dgas")]
 		}
 		if g.ctrType[c] == "factoryrv" {
 			a.Data = ethcmn.LeftPadBytes(hist.FactoryRvChild(c).Bytes(), 32)
